@@ -30,6 +30,7 @@ type bcfg struct {
 	Faults     []string `json:"faults"`      // fault events
 	Snaps      int      `json:"snaps"`       // older leader copies kept for L.loseTail
 	K          int      `json:"k"`           // recovery bound (fault-free steps)
+	Local      bool     `json:"local"`       // the leader also has its local replicator (a second consumer group whose ack advances by event L.local)
 }
 
 var (
@@ -90,6 +91,10 @@ func configs(thorough bool) []bcfg {
 	for _, w := range words(2) {
 		mk(w, 2, "transport+follower", menuTransport, menuA)
 	}
+	// (a configuration with the leader's local replicator as second consumer group - bcfg.Local - is not
+	// registered: the local replicator keeps its sequence in the shared real data family, which survives the
+	// per-replay fresh WAL directories and makes replays diverge; the clause "log GC is held back by the
+	// slowest group" is checked on the queue itself by C06)
 	return out
 }
 
